@@ -28,12 +28,13 @@ REQUIRED = ["route.list", "route.one-by-one", "route.scenario", "route.xml", "ro
             "point.edge-mid", "shape-coherence.Circle", "shape-coherence.Rectangle", "shape-coherence.Polygon",
             "shape-coherence.ShapeGroup", "get_obstacles", "map_obstacles_to_lanelets", "contains_points",
             "kind.adjacent", "kind.crossing", "kind.nested", "provenance.placed-angle-0", "provenance.placed",
-            "provenance.translate_rotate", "provenance.deepcopy"]
+            "provenance.translate_rotate", "provenance.deepcopy", "route.deferred-index", "route.deferred-remove",
+            "route.translate-before-index"]
 ASSUMPTIONS = ["lanelet polygons are simple (strips with strictly increasing abscissa)",
                "circle queries within 0.2% of the radius of a boundary are not judged (shapely discs are 64-gons)"]
 SHARDS = {"quick": 4, "thorough": 16}
 ROUTES = ["list", "one-by-one", "scenario", "xml", "protobuf", "deepcopy", "pickle", "cutout-copy", "add-remove-add",
-          "copy-then-edit-both"]
+          "copy-then-edit-both", "deferred-index", "deferred-remove", "translate-before-index"]
 
 
 def build(route, lanelets, rng):
@@ -72,6 +73,39 @@ def build(route, lanelets, rng):
         res = [(route + "-removed", copy.copy(net))] if False else []
         net.add_lanelet(copy.deepcopy(victim))
         return res + [(route, net)]
+    if route in ("deferred-index", "deferred-remove", "translate-before-index"):
+        # add_lanelet / remove_lanelet with rtree=False defer the re-build of the spatial index (documented batch usage);
+        # the next indexing operation must leave an index that describes exactly the lanelets the network holds then
+        import numpy as np
+        from vf.gen import lattice
+        net = LaneletNetwork()
+        if route == "deferred-index":
+            for la in ls[:-1]:
+                net.add_lanelet(la, rtree=False)
+            net.add_lanelet(ls[-1])
+            return [(route, net)]
+        if route == "deferred-remove":
+            for la in ls:
+                net.add_lanelet(la)
+            ghost = lattice.lanelet(9003, (ls[0].left_vertices.copy(), ls[0].center_vertices.copy(),
+                                           ls[0].right_vertices.copy()))
+            far = lattice.lanelet(9004, lattice.strip(rng, 60.0, -40.0, 2, 2.0, 2.0, wobble=False))
+            net.add_lanelet(ghost)
+            net.add_lanelet(far)
+            net.remove_lanelet(9003, rtree=False)
+            net.remove_lanelet(9004, rtree=False)
+            how = rng.choice(["add", "remove", "none"])
+            if how == "add":
+                net.add_lanelet(lattice.lanelet(9005, lattice.strip(rng, -60.0, -40.0, 2, 2.0, 2.0, wobble=False)))
+            elif how == "remove" and len(ls) > 1:
+                net.remove_lanelet(ls[-1].lanelet_id)
+            return [(route, net), (route + "-deepcopy", copy.deepcopy(net)),
+                    (route + "-pickle", pickle.loads(pickle.dumps(net)))]
+        for la in ls:
+            net.add_lanelet(la, rtree=False)
+        net.translate_rotate(np.array([lattice.q(rng, -20, 20), lattice.q(rng, -20, 20)]), 0.0)
+        net.add_lanelet(lattice.lanelet(9006, lattice.strip(rng, 80.0, 80.0, 2, 2.0, 2.0, wobble=False)))
+        return [(route, net)]
     if route == "copy-then-edit-both":
         from vf.gen import lattice
         cp = copy.deepcopy(base)
